@@ -4,11 +4,12 @@ from .ringgen import random_sched
 
 HEADER = "From RM Require Import Util RingModel FullSync PoolRun Arc."
 
-def mk_case(N, hs, progs, sched, meta=None):
-    line = "arc N=%d hs=%s ; " % (N, ",".join(map(str, hs))) + " ; ".join(" ".join(p) for p in progs) + " ; S " + " ".join(map(str, sched))
+def mk_case(N, hs, progs, sched, meta=None, shared=0):
+    line = "arc N=%d hs=%s%s ; " % (N, ",".join(map(str, hs)), " shared=1" if shared else "") + " ; ".join(" ".join(p) for p in progs) + " ; S " + " ".join(map(str, sched))
     cop = {"clone": "RClone", "drop": "RDrop", "count": "RCount", "read": "RRead"}
-    coq = "run_arc %d [%s] [%s] [%s]%%nat" % (N, "; ".join(map(str, hs)), "; ".join("[" + "; ".join(cop[o] for o in p) + "]" for p in progs), "; ".join(map(str, sched)))
-    m = dict(N=N, hs=hs, progs=progs, sched=sched); m.update(meta or {})
+    # (a handle that several threads borrow and clone has no counterpart in the model, where every handle has one owning thread: oracle only)
+    coq = None if shared else "run_arc %d [%s] [%s] [%s]%%nat" % (N, "; ".join(map(str, hs)), "; ".join("[" + "; ".join(cop[o] for o in p) + "]" for p in progs), "; ".join(map(str, sched)))
+    m = dict(N=N, hs=hs, progs=progs, sched=sched, shared=shared); m.update(meta or {})
     return Case(line, coq, m)
 
 def parse_case_line(line):
@@ -18,7 +19,24 @@ def parse_case_line(line):
     for sec in secs[1:]:
         if sec.startswith("S ") or sec == "S": sched = [int(x) for x in sec[1:].split()]
         else: progs.append(sec.split())
-    return mk_case(int(params["N"]), [int(x) for x in params["hs"].split(",")], progs, sched)
+    return mk_case(int(params["N"]), [int(x) for x in params["hs"].split(",")], progs, sched, shared=int(params.get("shared", 0)))
+
+def gen_shared_case(rng):
+    """one handle that no thread owns is borrowed by 2-3 threads, each cloning it (`sclone`) at will - also when it is the sole handle -
+    reading the count through it and dropping its own clones"""
+    N = rng.choice([2, 4]); nthreads = rng.randint(2, 3)
+    hs = [0] * nthreads if rng.random() < 0.7 else [rng.randint(0, 1) for _ in range(nthreads)]
+    if sum(hs) == 0: hs_line = hs
+    progs = []
+    for t in range(nthreads):
+        p = ["sclone"] + [rng.choice(["sclone", "drop", "drop", "scount", "read", "clone"]) for _ in range(rng.randint(0, 4))]
+        p += ["drop"] * (hs[t] + p.count("sclone") + p.count("clone"))
+        progs.append(p)
+    total = sum(len(p) for p in progs)
+    sched = random_sched(rng, nthreads, rng.randint(0, total * 3), burst=rng.choice([0.2, 0.5]))
+    for _ in range(4 * max(len(p) for p in progs) + 8): sched += list(range(nthreads))
+    hs2 = hs if sum(hs) > 0 else hs
+    return mk_case(N, hs2 if sum(hs2) > 0 else [0] * nthreads, progs, sched, shared=1)
 
 def gen_case(rng, max_ops=6):
     N = rng.choice([2, 4]); nthreads = rng.randint(2, 3)
@@ -41,6 +59,7 @@ def oracle(case, recs):
     creation; the slot goes back to the pool exactly once, and only when no handle is left"""
     hits = []
     N = case.meta["N"]; live = dict(enumerate(case.meta["hs"])); progs = case.meta["progs"]; pos = {}
+    if case.meta.get("shared"): live[-1] = 1                      # the borrowed handle: alive throughout
     for r in recs:
         if r[0] == "ret":
             t = r[1]; code = r[2]; k = pos.get(t, 0); pos[t] = k + 1
